@@ -24,7 +24,7 @@ RULE = ("A case is an object graph given as a node table: each node is a scalar,
         "{check_for_cycles, ignore_cycles}. Oracle, acyclic graphs, for every entry point that supports the types "
         "(json.build_tree, BasicBuilder().build_tree, pydiff.build_tree): t.to_obj() equals the reference conversion "
         "(tuples -> lists, sets -> multisets) with strict type comparison; the entry points give == trees with equal "
-        "canonical values; every mapping and list node carries the flags the build options ask for, at every depth; a BasicBuilder subclass with its own handler for a tuple subclass is honoured after the base class was used, also for an unregistered subclass of that subclass (most specialised registered ancestor wins); to_obj() returns a value the caller may destroy without changing the next to_obj(); every custom object converts to its class name and exactly its public members (instance attributes plus every non-dunder name of its class and base classes), each converted as on its own; every set converts to a multiset with as many children as members, pairwise == to the members' own conversions; t.copy() is == to t, has an equal to_obj() and shares no node object with t; shared "
+        "canonical values; every mapping and list node carries the flags the build options ask for, at every depth; a BasicBuilder subclass with its own handler for a tuple subclass is honoured after the base class was used, also for an unregistered subclass of that subclass (most specialised registered ancestor wins); to_obj() returns a value the caller may destroy without changing the next to_obj(); every custom object converts to its class name and exactly its public members (instance attributes plus every non-dunder name of its class and base classes), each converted as on its own; the same object graph with sets and mappings filled in the opposite order gives == trees; set members and mapping keys include bytes with the text of a str member and frozensets; every set converts to a multiset with as many children as members, pairwise == to the members' own conversions; t.copy() is == to t, has an equal to_obj() and shares no node object with t; shared "
         "sub-objects must not raise a cycle error. Cyclic graphs with cycle checking on: the Builder entry points "
         "raise ValueError, or with ignore_cycles produce a tree containing a CyclicReference placeholder, within the "
         "loop budget; json.build_tree must terminate with an exception. Non-trivial: a graph with sharing or a cycle, "
@@ -42,15 +42,34 @@ DESIGN_REF = 'DESIGN.md section 3, C18'
 SHRINK = {'lists': ['nodes'], 'enums': {'ds': 'auto', 'le': 'on', 'cycles': 'check'}}
 
 
+def _has_tuple(e):
+    return isinstance(e, list) and bool(e) and (e[0] == 't' or (e[0] == 'fs' and any(_has_tuple(x) for x in e[1:])))
+
+
 def _set_with_tuple(case, key, detail):
-    return any(nd[0] in ('set', 'frozenset') and any(isinstance(e, list) for e in nd[1]) for nd in case.get('nodes', [])
+    return any(nd[0] in ('set', 'frozenset') and any(_has_tuple(e) for e in nd[1]) for nd in case.get('nodes', [])
                if isinstance(nd, list) and len(nd) == 2)
 
 
 PREDICATES = {'set_contains_tuple': _set_with_tuple}
 
 SCALARS = st.one_of(st.none(), st.booleans(), st.integers(-5, 5), st.sampled_from([0.5, -2.5, 1e10]), st.sampled_from(['', 'a', 'ab', 'b', '1']))
-HSCAL = st.one_of(st.integers(-3, 3), st.sampled_from(['a', 'b', 'ab']), st.none())
+HSCAL = st.one_of(st.integers(-3, 3), st.sampled_from(['a', 'b', 'ab']), st.none(), st.sampled_from([0, 8, 16, 1, 9]),
+                  # bytes with the same text as a str in the pool (same hash in CPython, different value)
+                  st.sampled_from([['b', 'a'], ['b', 'ab'], ['b', 'b']]))
+
+
+def hval(e, reverse=False):
+    """decodes a hashable element of a case: ['b', text] -> bytes, ['t', ...] -> tuple, ['fs', ...] -> frozenset (filled in the
+    opposite order with reverse), scalar -> itself"""
+    if isinstance(e, list):
+        if e and e[0] == 'b':
+            return e[1].encode('ascii')
+        if e and e[0] == 'fs':
+            xs = [hval(x, reverse) for x in e[1:]]
+            return frozenset(reversed(xs) if reverse else xs)
+        return tuple(hval(x, reverse) for x in e[1:])
+    return e
 
 
 class Obj:
@@ -124,10 +143,13 @@ def graphs(draw, max_nodes=8, allow_cycles=True, allow_obj=True):
             lo = st.integers(0, i - 1) if i > 0 else None
             nodes.append(['tuple', draw(st.lists(lo, max_size=3)) if lo is not None else []])
         elif k == 'dict':
-            keys = draw(st.lists(st.one_of(st.sampled_from(['a', 'b', 'k', '']), st.integers(0, 3)), max_size=3, unique_by=lambda x: (type(x).__name__, x)))
+            keys = draw(st.lists(st.one_of(st.sampled_from(['a', 'b', 'k', '']), st.integers(0, 3), st.sampled_from([['b', 'a'], ['b', 'k']])),
+                                 max_size=3, unique_by=lambda x: (type(x).__name__, repr(x))))
             nodes.append(['dict', [[kk, draw(refs)] for kk in keys] if refs is not None else []])
         elif k == 'set':
-            elems = draw(st.lists(st.one_of(HSCAL, st.lists(HSCAL, max_size=2).map(lambda t: ['t'] + t)), max_size=3))
+            elems = draw(st.lists(st.one_of(HSCAL, HSCAL, st.lists(HSCAL, max_size=2).map(lambda t: ['t'] + t),
+                                            st.lists(HSCAL, min_size=1, max_size=3).map(lambda t: ['fs'] + t),
+                                            st.sampled_from([['fs', 0, 8], ['fs', 8, 16, 0], ['fs', 1, 9]])), max_size=3))
             nodes.append([draw(st.sampled_from(['set', 'frozenset'])), elems])
         elif k == 'dobj':
             attrs = draw(st.lists(st.sampled_from(['x', 'y', 'name', 'units']), max_size=2, unique=True))
@@ -191,7 +213,10 @@ def valid(case):
         elif k in ('dict', 'obj', 'dobj'):
             if not all(isinstance(p, list) and len(p) == 2 and isinstance(p[1], int) and 0 <= p[1] < n for p in v):
                 return False
-            if len({(type(p[0]).__name__, p[0]) for p in v}) != len(v):
+            if len({(type(p[0]).__name__, repr(p[0])) for p in v}) != len(v):
+                return False
+            if not all(isinstance(p[0], (str, int)) or (k == 'dict' and isinstance(p[0], list) and len(p[0]) == 2 and p[0][0] == 'b'
+                                                        and isinstance(p[0][1], str) and p[0][1].isascii()) for p in v):
                 return False
             if k in ('obj', 'dobj') and not all(isinstance(p[0], str) and p[0].isidentifier() for p in v):
                 return False
@@ -205,8 +230,9 @@ def valid(case):
     return case.get('cycles') in ('check', 'ignore')
 
 
-def materialise(nodes):
-    """-> list of python objects (one per node), flags"""
+def materialise(nodes, reverse=False):
+    """-> list of python objects (one per node); with reverse, sets and dicts are filled in the opposite order (equal objects)"""
+    rv = (lambda xs: list(reversed(list(xs)))) if reverse else list
     objs = [None] * len(nodes)
     for i, (k, v) in enumerate(nodes):
         if k == 'scalar':
@@ -220,8 +246,13 @@ def materialise(nodes):
         elif k == 'dobj':
             objs[i] = DerivedObj()
         elif k in ('set', 'frozenset'):
-            el = [tuple(e[1:]) if isinstance(e, list) else e for e in v]
-            objs[i] = set(el) if k == 'set' else frozenset(el)
+            el = rv(hval(e, reverse) for e in v)
+            if k == 'set':
+                objs[i] = set()
+                for x in el:
+                    objs[i].add(x)
+            else:
+                objs[i] = frozenset(el)
         elif k == 'oset':
             objs[i] = frozenset(objs[r] for r in v) if len(v) % 2 else set(objs[r] for r in v)
         elif k == 'tuple':
@@ -230,8 +261,8 @@ def materialise(nodes):
         if k == 'list':
             objs[i].extend(objs[r] for r in v)
         elif k == 'dict':
-            for kk, r in v:
-                objs[i][kk] = objs[r]
+            for kk, r in rv(v):
+                objs[i][hval(kk)] = objs[r]
         elif k in ('obj', 'dobj'):
             for a, r in v:
                 setattr(objs[i], a, objs[r])
@@ -421,10 +452,13 @@ def check(case):
     opts = common.build_options(ds, le, api_none=bool(case.get('api_none')), check_for_cyces=True, ignore_cycles=ignore)
     has_obj = bool(kinds & {'obj', 'oset', 'dobj'})
     has_set = bool(kinds & {'set', 'frozenset', 'oset'})
+    reach = reachable(nodes, root)
+    has_bytes = any((nodes[i][0] == 'dict' and any(isinstance(p[0], list) for p in nodes[i][1])) or
+                    (nodes[i][0] in ('set', 'frozenset') and 'b' in repr(nodes[i][1]) and "['b'," in repr(nodes[i][1])) for i in reach)
     entries = [('pydiff', lambda: pydiff.build_tree(o, opts))]
     if not has_obj:
         entries.append(('basic', lambda: builder.BasicBuilder(opts).build_tree(o)))
-        if not has_set:
+        if not has_set and not has_bytes:         # (json.build_tree decodes bytes to str by design)
             entries.append(('json', lambda: gjson.build_tree(o, opts)))
     out.label('cyclic' if cyclic else ('shared' if shared else 'tree'), 'ds:' + ds, 'cycles:' + case.get('cycles', 'check'))
     for k in sorted(kinds):
@@ -507,6 +541,20 @@ def check(case):
             got = norm(tt.to_obj())
         if not strict_eq(got, expected_tagged(o)):
             out.fail('subclass-handler-ignored', f"a BasicBuilder subclass with its own tuple builder produced {got!r}, expected {expected_tagged(o)!r}")
+    # the same object graph with every set and mapping filled in the opposite order is an equal object: equal trees
+    if not has_obj and (has_set or 'dict' in kinds):
+        o_rev = materialise(nodes, reverse=True)[root]
+        for name, f in (('pydiff', lambda x: pydiff.build_tree(x, opts)), ('basic', lambda x: builder.BasicBuilder(opts).build_tree(x))):
+            if name not in trees:
+                continue
+            with guard(f'{name}.build_tree of the same object filled in the opposite order'):
+                t_rev = f(o_rev)
+                same = (t_rev == trees[name]) and (trees[name] == t_rev)
+            if not same:
+                out.fail(f'insertion-order-changes-tree:{name}', f"{name}: the trees of two equal objects (sets / mappings filled in opposite orders) "
+                                                                f"compare unequal: {exp!r}")
+                break
+        out.label('opposite-order-twin-checked')
     # a custom object converts to its class name plus *all* of its public state, inherited class-level members included
     for i in sorted(reachable(nodes, root)):
         if nodes[i][0] not in ('obj', 'dobj'):
